@@ -235,7 +235,10 @@ int tls12_do_connect(TLS_CONNECT *conn)
 
 
 	// send ClientHello
-	tls_random_generate(client_random);
+	if (tls_random_generate(client_random) != 1) {
+		error_print();
+		goto end;
+	}
 	int ec_point_formats[] = { TLS_point_uncompressed };
 	size_t ec_point_formats_cnt = 1;
 	int supported_groups[] = { TLS_curve_sm2p256v1 };
@@ -467,7 +470,10 @@ int tls12_do_connect(TLS_CONNECT *conn)
 	// generate MASTER_SECRET
 	tls_trace("generate secrets\n");
 	SM2_KEY client_ecdh;
-	sm2_key_generate(&client_ecdh);
+	if (sm2_key_generate(&client_ecdh) != 1) {
+		error_print();
+		goto end;
+	}
 	sm2_do_ecdh(&client_ecdh, &server_ecdhe_public, &server_ecdhe_public);
 
 	// 需要重新考虑在TLS中是用sm2_do_ecdh还是sm2_ecdh，sm2_ecdh对nistp256的兼容性更好			
@@ -769,7 +775,10 @@ int tls12_do_accept(TLS_CONNECT *conn)
 
 	// send ServerHello
 	tls_trace("send ServerHello\n");
-	tls_random_generate(server_random);
+	if (tls_random_generate(server_random) != 1) {
+		error_print();
+		goto end;
+	}
 	tls_record_set_protocol(record, conn->protocol);
 	if (tls_record_set_handshake_server_hello(record, &recordlen,
 		conn->protocol, server_random, NULL, 0,
@@ -806,7 +815,10 @@ int tls12_do_accept(TLS_CONNECT *conn)
 
 	// send ServerKeyExchange
 	tls_trace("send ServerKeyExchange\n");
-	sm2_key_generate(&server_ecdhe_key);
+	if (sm2_key_generate(&server_ecdhe_key) != 1) {
+		error_print();
+		goto end;
+	}
 	if (tls_sign_server_ecdh_params(&conn->sign_key,
 		client_random, server_random, TLS_curve_sm2p256v1, &server_ecdhe_key.public_key,
 		sigbuf, &siglen) != 1) {
